@@ -7,35 +7,35 @@ VERIF = os.path.dirname(os.path.dirname(os.path.abspath(__file__)))
 PY = '/venv/bin/python'
 
 LEVEL_TEXT = {
-    'C01': 'Static necessary conditions of binary round-trip: Paths(encode) <= Paths(decode) over the Encoder/Decoder token vocabulary for every PER/UPER/OER class under every configuration (abstract interpretation), pairing in all dispatch tables, DEFAULT elide/restore pairing on path summaries, decoder-derived widths by bounded evaluation, extension-marker state machine, alignment over the whole write position, delegation mirror (per configuration the decoder hands the data to the mirrored methods of the children the encoder used) on BER/DER/PER/UPER/OER. Decides the shape, not value equality. Time text written with fixed-width fields only (no strftime directive of platform-dependent width); the decoders of known-multiplier strings rebuild characters with the width of the unconstrained alphabet. OBJECT IDENTIFIER contents encoder / decoder and the BIT STRING value cleaning used for DEFAULT comparison decided by bounded evaluation.',
+    'C01': 'Static necessary conditions of binary round-trip: Paths(encode) <= Paths(decode) over the Encoder/Decoder token vocabulary for every PER/UPER/OER class under every configuration (abstract interpretation), pairing in all dispatch tables, DEFAULT elide/restore pairing on path summaries, decoder-derived widths by bounded evaluation, extension-marker state machine, alignment over the whole write position, delegation mirror (per configuration the decoder hands the data to the mirrored methods of the children the encoder used) on BER/DER/PER/UPER/OER. Decides the shape, not value equality. Time text written with fixed-width fields only (no strftime directive of platform-dependent width); the decoders of known-multiplier strings rebuild characters with the width of the unconstrained alphabet. OBJECT IDENTIFIER contents encoder / decoder and the BIT STRING value cleaning used for DEFAULT comparison decided by bounded evaluation. The converter of DEFAULT values has no path that answers "no DEFAULT" for a notation it does not understand.',
     'C02': 'Static pairing / literal-agreement / REAL-formatting rules over jer.py and xer.py on path summaries (special values excluded before formatting, pass-through shortcuts only over identity conversions; delegation mirror of encode/decode and encode_of/decode_of per configuration); structural necessary conditions, not document validity or value equality. A class whose XER encoder gives its element children never reads that element\'s own text (indentation lives there). XER element names derived from type names are sanitised.',
     'C03': 'Static DER canonical-form obligations visible in code shape (SET sorted by tag, SET OF sorted, primitive-only encode paths, restricted and zero-filled time forms, definite lengths only, CHOICE forces EXPLICIT on every path that sets a tag kind, minimal length/tag tables, base-128 thresholds, transparent wrappers decide DEFAULT equality by the wrapped type). Time values reach the conversion helpers without arithmetic; leaf encoders (tag, length, signed integer, SET sort key) decided by bounded evaluation first. BIT STRING value cleaning (DEFAULT comparison) decided by bounded evaluation.',
-    'C04': 'Static acceptance-shape rules for the BER decoder (indefinite allowed on constructed classes, length-is-None handled before arithmetic wherever the length is handed to, end-of-contents typestate, constructed-tag aliases, order-insensitive member loop, no length minimality test, segments joined before text decoding).',
+    'C04': 'Static acceptance-shape rules for the BER decoder (indefinite allowed on constructed classes, length-is-None handled before arithmetic wherever the length is handed to, end-of-contents typestate, constructed-tag aliases, order-insensitive member loop, no length minimality test, segments joined before text decoding). Every base / scaling factor / exponent form of the binary REAL encoding is decoded (bounded evaluation of decode_real).',
     'C05': 'PER/UPER primitives, INTEGER and the CHOICE index evaluated on boundary arguments by the checker\'s own bit-level interpreter against an X.691 oracle (encoder bits and decoder read-back); UPER = PER minus alignment on token paths; SET ordering; PER-visible constraint plumbing; copy discipline. Permitted alphabets: bits per character and the keep-values / renumber decision of X.691 30.5.4 by evaluation of both constructors on a grid of alphabets. Presence bits by membership; no attribute derived in a constructor alone from a parameter that a set_* method re-configures.',
-    'C06': 'OER length/ENUMERATED/tag primitives and the INTEGER width table evaluated on boundary arguments against X.696; universal tag table across codecs; fixed-size decisions; extension-bitmap arithmetic by bounded evaluation; E1 conformance of the OER classes. REAL: fixed-size IEEE 754 forms selected exactly for the X.696 12 windows (constructor evaluated on a grid of WITH COMPONENTS constraints). Presence bits by membership; no stale derived attribute after set_* re-configuration.',
-    'C07': 'Static completeness of the unknown-extension path on every decode entry point of every decoding codec (path summaries), in the universal form too (after a failed lookup only non-extensibility leads away from the absent value); skip-by-length def-use; lenient additions followed into the helpers that receive the flag. XER components are found by name among all children, never by position.',
+    'C06': 'OER length/ENUMERATED/tag primitives and the INTEGER width table evaluated on boundary arguments against X.696; universal tag table across codecs; fixed-size decisions; extension-bitmap arithmetic by bounded evaluation; E1 conformance of the OER classes. REAL: fixed-size IEEE 754 forms selected exactly for the X.696 12 windows (constructor evaluated on a grid of WITH COMPONENTS constraints). Presence bits by membership; no stale derived attribute after set_* re-configuration. Presence bits collected by a loop that may stop early are moved to their positions; the fixed-size string form only for one-octet-per-character encodings.',
+    'C07': 'Static completeness of the unknown-extension path on every decode entry point of every decoding codec (path summaries), in the universal form too (after a failed lookup only non-extensibility leads away from the absent value); skip-by-length def-use; lenient additions followed into the helpers that receive the flag. XER components are found by name among all children, never by position. Automatic tag numbers of root components do not depend on the additions present (tagging pass evaluated on version pairs); the open-type length counts every place the encoder keeps written bits in.',
     'C08': 'Static progress arguments: TAG_MISMATCH sentinel discipline, loop progress templates on every decode-reachable while loop, interprocedural provenance of wire-derived loop counts and of ** exponents, decode purity, and interval abstract interpretation of every amount handed to a consuming Decoder primitive (the read position never moves backwards). JER documents are parsed with the default bounded number conversions. The BER end-of-contents helper never returns an offset below the current one (bounded evaluation).',
     'C09': 'Static analysis of the generator templates and C helper strings (pycparser): checked allocation before every buffer index, bounds check emitted before runtime-length access, encode/decode template pairing along every path, dispatch agreement read off path summaries, helper registry closure/order, 64-bit rejection and C field type by bounded evaluation, integer append/read helper pairs evaluated by the checker\'s own C interpreter against the wire format, scratch variables of the generated code allocated per use. Re-entrant generator methods keep per-member maps in locals; a variable that receives a run-time-width read is not declared narrower than the maximum.',
     'C10': 'As C09 for the OER generator plus exact decision-table equivalence of static-length and integer-width tables between Python generator, C helpers and the Python OER codec. The CHOICE tag reader is interpreted on every valid 1-4 octet tag form.',
     'C11': 'Static constraint plumbing: every ranged checker class establishes is_in_range on every non-raising path (through base-class and helper calls); check invoked on all three API entry points (must-pass-through); descriptor-key coverage on the reference path; extensible => unconstrained. is_in_range decided by evaluation on a (bounds, value) grid; a path past the permitted-alphabet loop must be as strict as the loop (whole-string regular expression). Every returning path of a container check runs the loop over its children (must-pass-through).',
-    'C12': 'Static location-wrapper discipline at every named-child call (try/except, function wrappers, context managers), add_location de-duplication only of the identical element, no-foreign-exception rule for data-keyed lookups, and both checkers visit every member / element / selected alternative. Encode errors are located by the containers only (no error constructed with its raiser as location). In the type checker a part of the value is used as a dictionary key only after an isinstance test on every path.',
+    'C12': 'Static location-wrapper discipline at every named-child call (try/except, function wrappers, context managers), add_location de-duplication only of the identical element, no-foreign-exception rule for data-keyed lookups, and both checkers visit every member / element / selected alternative. Encode errors are located by the containers only (no error constructed with its raiser as location). In the type checker a part of the value is used as a dictionary key only after an isinstance test on every path. What the type check admits, the binary codecs can encode or refuse with the library error (INTEGER str, OBJECT IDENTIFIER text evaluated).',
     'C13': 'Static who-may-write / idempotence-guard / option-taint rules over in-place rewrites of the specification dictionary (path summaries of the second run). No pre-processing pass runs under a switch of the compiler object.',
     'C14': 'Static lexer/grammar literal rules: comment pre-pass recognises string literals and preserves new-lines (regex ASTs); no grammar literal fixes a white-space layout; the parser parses the pre-passed text; the depth counter of nested comments sees every opener. Every alternative of the marker scanner is a bounded marker (state-independent scanning cannot match whole literals).',
     'C15': 'Static agreement of the length probe and the decoders (shared decode_length), exception->result mapping and handler order, no IndexError escape (followed into helpers), tag continuation constants, no open-ended slice of the whole input buffer, every conversion of a buffer slice into a number preceded by an octet-count comparison on its path. The length probe decode_full_length decided by bounded evaluation on ~1000 (message, prefix) pairs.',
-    'C16': 'Static guard discipline of PER/OER Decoder primitives (every raw read of decoder state is preceded on every path by a remaining-bits test, directly or through a checking helper; re-windowing assignments compared with the remaining bits), no bypass, error hierarchy, BER length octets counted before conversion.',
+    'C16': 'Static guard discipline of PER/OER Decoder primitives (every raw read of decoder state is preceded on every path by a remaining-bits test, directly or through a checking helper; re-windowing assignments compared with the remaining bits), no bypass, error hierarchy, BER length octets counted before conversion. BER: skipping a TLV fails on truncated data like reading it (bounded evaluation on every proper prefix).',
     'C17': 'Static cache-key completeness/unambiguity and bypass rules (key clause), lossless flow of the file contents into the key, compiled state kept in instances (what the pickled cache entry carries), and no pickling hook that rebuilds state by other code than __init__. The key iterates the very sequence of files handed to the producer.',
-    'C18': 'Effect analysis with interprocedural summaries: no runtime-reachable method writes state that outlives the call or its input; scratch objects are fresh per call.  A sufficient condition for statelessness under any interleaving. A memoised function returns immutable objects only.',
-    'C19': 'Static shallow-copy ownership on path summaries, DEFAULT conversion keyed on the resolved type (all parser functions), descriptor-key coverage on the reference path, lookup order, compiled-type cache key, names taken from a looked-up descriptor resolved in the module the lookup returned. Nothing found through a lookup / resolver in another module is filed or resolved under the starting module.',
+    'C18': 'Effect analysis with interprocedural summaries: no runtime-reachable method writes state that outlives the call or its input; scratch objects are fresh per call.  A sufficient condition for statelessness under any interleaving. A memoised function returns immutable objects only. Decoders hand out copies of DEFAULT values; elements built by a constructor are never placed into a result.',
+    'C19': 'Static shallow-copy ownership on path summaries, DEFAULT conversion keyed on the resolved type (all parser functions), descriptor-key coverage on the reference path, lookup order, compiled-type cache key, names taken from a looked-up descriptor resolved in the module the lookup returned. Nothing found through a lookup / resolver in another module is filed or resolved under the starting module. No attribute is derived in a constructor alone from what a set_* method re-configures for a constrained reference.',
     'C20': 'Static quoting-sanitiser, emptiness-guard and REAL-format rules over gser.py (inlined return expressions); every component of a composite value flows into the emitted text on every path. Text returned by a child encoder is composed, never rewritten by content (interprocedural text taint).',
 }
 TECHNIQUE = {
     'C01': 'static analysis: abstract interpretation of encode/decode into token path sets (inclusion per configuration), path summaries, delegation-set comparison per configuration, bounded evaluation of extracted arithmetic',
     'C02': 'static analysis: path summaries (conditions before effects), sibling pairing, delegation-set comparison per configuration, literal agreement, class-hierarchy override closure',
     'C03': 'static analysis: dispatch-table evaluation, path summaries, encode-path reachability, boundary tables, bounded evaluation of leaf encoders',
-    'C04': 'static analysis: class-attribute/MRO rules, path summaries with helper delegation, flag typestate dataflow',
+    'C04': 'static analysis: class-attribute/MRO rules, path summaries with helper delegation, flag typestate dataflow, bounded evaluation of the REAL decoder',
     'C05': 'static analysis: bounded evaluation of primitive and type-level summaries by an own bit-level interpreter vs X.691 oracle; token-path comparison; bounded evaluation of the string-type constructors',
     'C06': 'static analysis: bounded evaluation vs X.696 oracle, decision-table equivalence, tag-table agreement; bounded evaluation of the REAL constructor',
-    'C07': 'static analysis: per-entry-point unknown-path completeness on path summaries, def-use, token-path conformance',
+    'C07': 'static analysis: per-entry-point unknown-path completeness on path summaries, def-use, token-path conformance, bounded evaluation of the tagging pass on version pairs',
     'C08': 'static analysis: sentinel result-check, loop progress templates, interprocedural bound provenance, interval abstract interpretation (flow-sensitive, widening, context-sensitive summaries of the Decoder methods), effect analysis',
     'C09': 'static analysis: pycparser bounds rules on C helper strings, template pairing along paths, decision-table cell enumeration, bounded evaluation of the helper strings by an own C interpreter, ownership rule for generated variables, call-graph cycle (re-entrancy) rule',
     'C10': 'static analysis: pycparser rules, template pairing along paths, exact decision-table equivalence, bounded evaluation of the helper strings by an own C interpreter, ownership rule for generated variables',
@@ -44,7 +44,7 @@ TECHNIQUE = {
     'C13': 'static analysis: taint of the specification dict, idempotence guards on path summaries, option taint',
     'C14': 'static analysis: regex AST (re._parser) and grammar-literal lint, unbounded-alternative rule on the scanner regex AST',
     'C15': 'static analysis: shared-callee, except-order, exception-mapping and buffer-slice rules followed through helpers, guard-before-conversion on path summaries, bounded evaluation of the probe',
-    'C16': 'static analysis: guard-before-access on path summaries (with checking helpers), raise-type rule over the decode call graph',
+    'C16': 'static analysis: guard-before-access on path summaries (with checking helpers), raise-type rule over the decode call graph, bounded evaluation of the skip helper on prefixes',
     'C17': 'static analysis: parameter-to-key dataflow completeness, helper inlining, class-level state and pickling-hook rules',
     'C18': 'static analysis: interprocedural effect (purity) analysis over the call graph, memoisation rule',
     'C19': 'static analysis: copy-ownership on path summaries, descriptor-key coverage, sibling conversion agreement, def-use pairing of looked-up descriptors with their module',
